@@ -136,9 +136,9 @@ fn binop_driver(t: &Tier, m: &mut Matrix, sink: &mut Sink, ops: &[&'static str],
     }
     // a few wide cases of the expensive operators: multi-word products / quotients of 128-bit words
     // (u128::wmul high parts only matter beyond 128 bits), carries across every word boundary
-    if !heavy.is_empty() {
+    {
         let wide_lens = [129usize, 130, 191, 192, 193, 255, 256, 257, 50, 63, 64, 100, 127, 128, 385, 448, 511, 512];
-        for i in 0..t.q(72, 900) {
+        for i in 0..t.q(160, 1800) {
             let n = wide_lens[i % wide_lens.len()];
             let ylen = *rng.pick(&[n, 128, 64, 129, 256, 200, n, n / 2 + 1]);
             let shape = |rng: &mut Rng, len: usize, k: usize| -> Bits {
@@ -154,10 +154,31 @@ fn binop_driver(t: &Tier, m: &mut Matrix, sink: &mut Sink, ops: &[&'static str],
             };
             let x = shape(&mut rng, n, i);
             let mut y = shape(&mut rng, ylen, i / 6 + 1);
-            let op = heavy[i % heavy.len()];
+            let op = ops[i % ops.len()];
             let is_div = matches!(op, "div" | "rem" | "div_rem");
+            if i % 5 == 0 {
+                // y shares every word of x except the lowest and (sometimes) the highest ones:
+                // carries / borrows then run through words where both operands are equal
+                y = x.clone();
+                y.truncate(ylen.min(n));
+                let w = *rng.pick(&[8usize, 16, 32, 64, 128]);
+                for b in y.iter_mut().take(w) {
+                    *b = 1;
+                }
+                let mut x2 = x.clone();
+                for b in x2.iter_mut().take(w) {
+                    *b = 0;
+                }
+                let forms: &[&str] = if op == "div_rem" { &[""] } else { &FORMS6 };
+                if !(is_div && (n > 257 || y.iter().all(|b| *b == 0))) {
+                    sink.emit(m.run(&Case::new(op, x2).y(YSpec::Bits(y.clone())).forms(forms)));
+                }
+            }
+            if heavy.contains(&op) && !is_div && t.quick && n > 257 && i % 4 != 0 {
+                continue; // 512-bit products are slow to evaluate in TLC: a quarter of them in quick
+            }
             if is_div {
-                if n > 257 {
+                if n > 257 && (t.quick && i % 12 != 0) {
                     continue;
                 }
                 if t.quick && i % 3 != 0 {
@@ -520,6 +541,29 @@ pub fn drive_c14(t: &Tier, m: &mut Matrix, sink: &mut Sink) {
     }
     for i in [0usize, 7, 123456] {
         sink.emit(m.run(&Case::new("err_display", vec![]).a(Args { i: Some(i), ..Default::default() }).xk(vec![Kind::D])));
+    }
+    // decimal digits of the largest value of EVERY length (digit-count estimates go wrong at isolated
+    // lengths), and small values in long vectors (whole zero words above the value) in every base
+    let plain = |base: char| FmtSpec { base, alt: false, plus: false, zero: false, width: None, fill: ' ', align: '-' };
+    for n in 0..=t.q(700, 1400) {
+        let ks: Vec<Kind> = ALL_KINDS.iter().copied().filter(|k| k.admits(n) && (!k.is_fixed() || n % 8 == 0 || n > 256)).collect();
+        sink.emit(m.run(&Case::new("fmt", ones(n)).a(Args { fmt: Some(plain('d')), ..Default::default() }).xk(ks)));
+    }
+    for n in [64usize, 65, 128, 129, 192, 193, 256, 320, 400, 512] {
+        for v in [vec![1u8], vec![1, 0, 1, 1, 0, 0, 1, 1, 1, 1, 0, 1, 0, 1, 0, 1], ones(8), ones(63), ones(64), ones(65)] {
+            if v.len() >= n {
+                continue;
+            }
+            let mut x = v.clone();
+            x.resize(n, 0);
+            for base in ['d', 'b', 'o', 'x', 'X'] {
+                for alt in [false, true] {
+                    let mut sp = plain(base);
+                    sp.alt = alt;
+                    sink.emit(m.run(&Case::new("fmt", x.clone()).a(Args { fmt: Some(sp), ..Default::default() })));
+                }
+            }
+        }
     }
     let per = t.q(3, 30);
     let xs = if t.quick { sample(&mut rng, &xs, 500) } else { xs };
